@@ -229,6 +229,21 @@ add("C18",
     "tick). Rename-over always gets a fresh mtime (inode recycling not explored). EACCES is unreachable as root. OpenSSL's PEM parsing trusted. "
     "Known finding: XCM_TLS_CERT at accept time is ignored (known_findings.json).", "DESIGN.md 2/C18", engine="enumerator")
 
+add("C20", EXPL.replace("all schedules", "all client/relay/server interleavings"),
+    "Three tasks - client application, server application and the relay (the real rserver.c/xrelay.c on the real libevent; one relay step is one "
+    "dispatch round, and the relay is disabled exactly while poll() on libevent's own epoll descriptor reports nothing) - are explored under every "
+    "interleaving with <= D preemptions and every pattern of <= D I/O deviations (short I/O, EAGAIN, persistent write-stall, connect latency) below "
+    "XCM on both legs. Leg pairs ux<->tcp, tcp<->ux, tcp<->tls, tls<->tcp, utls<->ux, btcp<->btls, btls<->btcp, btcp<->btcp, tcp<->tcp; scripts: one-way "
+    "with close in each direction, both directions with close, concurrent two-way, ping-pong, send-everything-before-reading, two relayed "
+    "connections, byte-stream scripts; sizes 1, 300, 65535. Oracle: end-to-end chan in both directions (unmodified, in order, exactly once), the "
+    "side that did not close sees EOF only after everything the closer's sends accepted, the relay never terminates and is never quiescent while "
+    "a delivery or a close propagation is owed, connections are independent. quick D=1-3: 54 configurations, 214,557 executions; thorough D=2-4: "
+    "115 configurations, 1,840,446 executions.",
+    "main.c option parsing is not driven. TCP is emulated with 1 MB buffers, so back-pressure is the write-stall deviation. The close-order clause "
+    "applies when the closer flushed and nothing was in flight towards it; all clauses are void after 3 s of virtual connect-timeout. Known "
+    "findings: the relay tears down a destination leg that still holds an accepted, unflushed frame; a TLS source leg that sent and closed before "
+    "the relay's next round loses everything (4 signatures, known_findings.json).", "DESIGN.md 2/C20")
+
 
 def main():
     man = dict(
